@@ -182,6 +182,12 @@ func (m *m6) base0(v ssa.Value) string {
 		if k := m.compactProducer(x); k != "" {
 			return k
 		}
+		// grown by exactly one append per iteration of a loop from 0: positions are the loop's own domain
+		if _, cl, ok := appendFill(x); ok {
+			if d := m.loopDomain(cl); d != "" {
+				return d
+			}
+		}
 		d := ""
 		for _, e := range x.Edges {
 			if e == ssa.Value(x) {
@@ -428,6 +434,12 @@ func (m *m6) index0(v ssa.Value) string {
 					}
 				}
 			}
+			// an element of a local list of indexes (built by append): the domain of what was appended
+			if ia, ok := x.X.(*ssa.IndexAddr); ok {
+				if d := m.elemIndex(ia.X, 0); d != "" {
+					return d
+				}
+			}
 			if a, ok := x.X.(*ssa.Alloc); ok {
 				d := ""
 				for _, st := range storesInto(a) {
@@ -496,6 +508,71 @@ func (m *m6) index0(v ssa.Value) string {
 	return ""
 }
 
+// elemIndex: the index domain of the values held by a local integer slice that is only ever extended by
+// `s = append(s, e)`: the common domain of the appended values.
+func (m *m6) elemIndex(s ssa.Value, d int) string {
+	if d > 6 {
+		return ""
+	}
+	if b, isB := s.Type().Underlying().(*types.Slice); !isB {
+		return ""
+	} else if eb, isInt := b.Elem().Underlying().(*types.Basic); !isInt || eb.Info()&types.IsInteger == 0 {
+		return ""
+	}
+	switch x := s.(type) {
+	case *ssa.Phi:
+		if m.busy[x] {
+			return "*"
+		}
+		m.busy[x] = true
+		defer delete(m.busy, x)
+		dom := ""
+		for _, e := range x.Edges {
+			ed := m.elemIndex(e, d+1)
+			switch {
+			case ed == "":
+				return ""
+			case ed == "*":
+			case dom != "" && dom != ed:
+				return ""
+			default:
+				dom = ed
+			}
+		}
+		return dom
+	case *ssa.Call:
+		if e := appendedElem(x); e != nil {
+			rest := m.elemIndex(x.Call.Args[0], d+1)
+			ed := m.index(e)
+			if rest == "" || ed == "" {
+				return ""
+			}
+			if rest == "*" {
+				return ed
+			}
+			if ed == "*" || ed == rest {
+				return rest
+			}
+			return ""
+		}
+	case *ssa.MakeSlice:
+		if l, isK := core.ConstInt(x.Len); isK && l == 0 {
+			return "*" // empty: no element yet
+		}
+	case *ssa.Slice:
+		if x.High != nil {
+			if hi, isK := core.ConstInt(x.High); isK && hi == 0 {
+				return "*"
+			}
+		}
+	case *ssa.Const:
+		if x.IsNil() {
+			return "*"
+		}
+	}
+	return ""
+}
+
 // fieldElemAsIndex: v = B.Uint64() where B = regular form of a field element E. It is a domain point only if
 // the use is guarded by a full-width comparison of E with VectorLength-1; a guard on v itself looks at the low
 // 64 bits only (2^64+3 would pass for 3).
@@ -529,12 +606,50 @@ func (m *m6) fieldElemAsIndex(u *ssa.Call) string {
 	return ""
 }
 
+// selfRanged: idx is the variable of a loop i = 0 .. len(base)-1 over this very slice value.
+func (m *m6) selfRanged(base, idx ssa.Value) bool {
+	idx = core.StripConv(idx)
+	for _, cl := range m.cls {
+		if cl.phi != idx || cl.step != 1 || cl.op != token.LSS {
+			continue
+		}
+		if z, isZ := core.ConstInt(cl.init); !isZ || z < 0 {
+			continue
+		}
+		if x, isLen := core.IsLenOf(cl.bound); isLen && (x == base || core.SameExpr(x, base)) {
+			return true
+		}
+	}
+	return false
+}
+
 func (m *m6) loopDomain(cl *countedLoop) string {
+	// a count-down loop i = N-1 .. 0 ranges over the same numbering as i = 0 .. N-1
+	if cl.step == -1 && (cl.op == token.GEQ || cl.op == token.GTR) {
+		if lo, isK := core.ConstInt(cl.bound); isK && lo >= 0 {
+			init := core.StripConv(cl.init)
+			if k, isC := core.ConstInt(init); isC && k+1 == m.vl {
+				return "DOM"
+			}
+			if b, isB := init.(*ssa.BinOp); isB && b.Op == token.SUB {
+				if one, isOne := core.ConstInt(b.Y); isOne && one == 1 {
+					return m.lenDomain(b.X)
+				}
+			}
+		}
+		return ""
+	}
 	if cl.step != 1 || cl.op != token.LSS {
 		return ""
 	}
 	if d := m.lenDomain(cl.bound); d != "" {
 		return d
+	}
+	// i < k for an index k of some domain (and i >= 0): i is of that domain too
+	if z, isZ := core.ConstInt(cl.init); isZ && z >= 0 {
+		if d := m.index(cl.bound); d != "" && d != "*" && !strings.HasPrefix(d, "BAD") && d != "DOM?" {
+			return d
+		}
 	}
 	// bound is a value defined as len(X) elsewhere, or the worker's own start..end range of openings
 	b := core.StripConv(cl.bound)
@@ -598,6 +713,8 @@ func RuleM6(c *Ctx) {
 				switch {
 				case id == "BAD:low64" || id == "DOM?":
 					c.Bad("M6", key, i.Pos(), "the index is the low 64 bits of a field element, and membership in the domain is decided on those 64 bits only: a point such as 2^64+3 is treated as the domain point 3 (the test must compare the whole field element with VectorLength-1)")
+				case (bd == "" || id == "") && m.selfRanged(base, idx):
+					c.OK("M6", key, i.Pos(), "indexed by a loop over its own length")
 				case bd == "" || id == "":
 					c.Und("M6", key, i.Pos(), fmt.Sprintf("cannot infer the index domain (array: %q, index: %q)", bd, id))
 				case id == "*":
